@@ -41,6 +41,11 @@ blocks, an int32 bit-cast, .numpy()}, an nn.Parameter (trainable / frozen) {itse
 torch.from_numpy(w) without / with requires_grad} -- in every placement {two attributes, list, tuple, dict, attribute +
 attribute of a nested object}, both stores: each of the two values must load back equal to ITSELF (kind, Parameter-vs-Tensor,
 dtype, shape, values, requires_grad); whether they still share memory after load is counted, not claimed.
+A CLASS-IDENTITY family stores every ordered pair of same-named classes (checks/_serial.TWIN_CLASSES: equal __name__ / __qualname__ in
+different modules, a subclass named like its base, 'Outer.Params' next to 'Params', 'Param' / 'Params' / 'Params2', a namesake of
+_serial.NodeA) in one graph in every placement (the first also as the ROOT holding the second) and in two successive save/load round
+trips of one process (root/root, root/nested, nested/root; saves and loads in three orders): `type(loaded) is type(original)` at
+every node, values equal. A class nested in a class is refused loudly at load on the unchanged tree: counted, not claimed.
 
 Excluded from the input alphabet exactly as the quantifier says: reserved metadata names, names
 containing '/' (and what zarr treats as path syntax: '\\', '.', '..'), non-native byte order and
@@ -69,7 +74,10 @@ CLAIM = (
     "(also delete-then-write onto the same path), loads of the previous target and in-place mutations up to depth 3 (quick) / 4 "
     "(thorough) with load(target) executed and compared to a deep-copy model after every save and earlier targets re-read; every ordered pair of distinct values "
     "that share memory (trainable tensor / nn.Parameter / plain tensor / ndarray with their detached, .data, same-geometry, re-shaped, transposed, offset, "
-    "bit-cast, numpy and from_numpy aliases) is stored in one graph in every placement and each value must come back as itself. Exploration is the right level: the "
+    "bit-cast, numpy and from_numpy aliases) is stored in one graph in every placement and each value must come back as itself; every ordered pair of classes that "
+    "share a name (same __name__ / __qualname__ in different modules, a subclass named like its base, a class nested in a class next to the module-level one, "
+    "names that are prefixes of one another, a namesake of a class loaded elsewhere) is stored in one graph in every placement (also root vs nested) and in two successive "
+    "round trips of one process in every order, and every loaded node must be an instance of the very same class object. Exploration is the right level: the "
     "property is a statement about a lattice of value kinds and configurations, each point decided exactly by one execution."
 )
 NOTE = (
@@ -82,7 +90,9 @@ RULE = (
     "core graphs x {zip, dir} x compression {None,0..9} x path {str, Path} x mode {w, o, o-onto-existing}, plus every event "
     "sequence up to the stated depth that ends in a save on four live objects (sequences with a non-applicable event are dropped and counted), plus every ordered "
     "pair of memory-sharing values of checks/_serial.MEM_BASES x placement x {zip, dir} (quick: all pairs as two attributes and in a list, the pairs containing the "
-    "base value itself in a dict and across a nested object; tuple placement and the fixed point are left to the thorough tier). A point is "
+    "base value itself in a dict and across a nested object; tuple placement and the fixed point are left to the thorough tier), plus every ordered "
+    "pair of checks/_serial.TWIN_CLASSES x placement x {zip, dir} and x session x order of saves and loads (quick: no tuple placement, no fixed point, two of the three orders, "
+    "session store alternating). A point is "
     "non-trivial when the loaded object has at least one attribute to compare; distinct = distinct (graph descriptor, store[, configuration])."
 )
 
@@ -1026,6 +1036,157 @@ def eval_history(item, seed=0, scratch="/tmp"):
     return t
 
 
+# ----------------------------------------------------------------------------- class identity of same-named classes
+# "yields an object of the same class". Members S.TWIN_CLASSES: classes that share __name__ / __qualname__ across modules (one a
+# subclass of its namesake), a class nested in a class ('Outer.Params') next to the module-level 'Params', names that are
+# prefixes of one another, a namesake of the NodeA every other family loads. Every ORDERED pair (with the diagonal) is placed
+# (i) in one graph (two attributes / list / dict / the first as ROOT holding the second / attribute + list of a nested object),
+# (ii) in two successive save/load round trips of one process (root then root, root then nested, nested then root; saves and
+# loads interleaved, saves first, saves first and loads in reverse). Oracle: `type(loaded) is type(original)` at every
+# AutoSerialize node (class OBJECTS, module included), then the ordinary value equality; zip result == dir result.
+# A class nested in a class is refused loudly at load on the unchanged tree (AttributeError: the qualified name is looked up
+# with one getattr): such a load is counted, not flagged; if it loads, the class must be right.
+def twin_items(quick):
+    ms = list(S.TWIN_CLASSES)
+    out = []
+    for x in ms:
+        for y in ms:
+            for pl in S.TWIN_PLACEMENTS:
+                if quick and pl == "tuple":  # tuples share the list decoder
+                    continue
+                out.append({"shape": "graph", "first": x, "second": y, "placement": pl, "fixed_point": not quick})
+    for x in ms:
+        for y in ms:
+            for ss in S.TWIN_SESSIONS:
+                for od in S.TWIN_ORDERS:
+                    if x == y and ss == "root_then_root" and od != "save_load_save_load":
+                        continue
+                    if quick and od == "save_save_load_load":
+                        continue
+                    for s1, s2 in ([("zip", "zip"), ("dir", "dir")] if quick else [(a, b) for a in STORES for b in STORES]):
+                        # quick: the store alternates with the position in the product instead of being multiplied in
+                        if quick and (s1 == "zip") != ((ms.index(x) + ms.index(y) + S.TWIN_SESSIONS.index(ss) + S.TWIN_ORDERS.index(od)) % 2 == 0):
+                            continue
+                        out.append({"shape": "session", "first": x, "second": y, "session": ss, "order": od, "stores": [s1, s2]})
+    return out
+
+
+def _twin_judge(exp, st, y, label, tag, has_inner, rel="load_save_equals_input"):
+    """(fails, outcome, refused) for one load against the freshly built expected graph."""
+    if st != "ok":
+        if st == "load_raises" and has_inner and isinstance(y, AttributeError):
+            return [], ["inner_class_refused_at_load", type(y).__name__], 1
+        return [(dict(tag, relation=rel, symptom=st, exc=type(y).__name__), f"{label}: {'save(x)' if st == 'save_raises' else 'load(save(x))'} raised {type(y).__name__}: {str(y)[:200]} (expected: no exception)")], [st, type(y).__name__], 0
+    outcome = [S.class_names(y), S.summary(y)]
+    ci = S.class_identity_diff(exp, y)
+    if ci:
+        r = ci[0]
+        return [(dict(tag, relation="class_identity", what="class"), f"{label}: the loaded object at {r['path']} is an instance of {r['observed']} (observed), the saved one of {r['expected']} (expected: the very same class)" + (f"; {len(ci) - 1} more node(s)" if len(ci) > 1 else ""))], outcome, 0
+    d = S.diff(exp, y, slack=True)
+    if d:
+        return [(S.cls_of(d[0], relation=rel, **tag), f"{label}: load(save(x)) differs from x: {S.fmt(d)}")], outcome, 0
+    return [], outcome, 0
+
+
+def run_twin(item, seed, scratch):
+    """(fails, {case label: outcome}, round trips, loads refused because of an inner class)."""
+    first, second = item["first"], item["second"]
+    fails, outcomes, rts, refused = [], {}, 0, 0
+    with S.Workdir(scratch, "C01") as wd:
+        if item["shape"] == "graph":
+            pl = item["placement"]
+            tag = {"family": "class_twins", "placement": pl}
+            inner = S.twin_is_inner(first) or S.twin_is_inner(second)
+            loaded = {}
+            for store in STORES:
+                label = f"store={store} same-named-classes graph {S.twin_show(first, second, pl)}"
+                st, y = S.save_load(S.twin_graph(first, second, pl, seed), wd, store, name="a")
+                rts += 1
+                f, outcomes[store], r = _twin_judge(S.twin_graph(first, second, pl, seed), st, y, label, tag, inner)
+                fails += f
+                refused += r
+                if st != "ok" or f:
+                    continue
+                loaded[store] = y
+                if item.get("fixed_point"):
+                    st2, z = S.save_load(y, wd, store, name="b")
+                    rts += 1
+                    f2, _, _ = _twin_judge(y, st2, z, label + " [fixed point: the loaded object saved and loaded again]", tag, inner, rel="fixed_point")
+                    fails += f2
+            if len(loaded) == 2:
+                d2 = S.diff(loaded["zip"], loaded["dir"], slack=False)
+                if d2:
+                    fails.append((S.cls_of(d2[0], relation="zip_equals_dir", **tag), f"same-named-classes graph {S.twin_show(first, second, pl)}: zip result (expected) differs from dir result (observed): {S.fmt(d2)}"))
+        else:
+            ss, od, stores = item["session"], item["order"], item["stores"]
+            tag = {"family": "class_twins", "session": ss}
+            roles = {"root_then_root": ("root", "root"), "root_then_nested": ("root", "nested"), "nested_then_root": ("nested", "root")}[ss]
+            steps = [(1, first, roles[0], stores[0]), (2, second, roles[1], stores[1])]
+            show = lambda k, m, role: f"<{m}>(v, n, s)" if role == "root" else f"Root(c=<{m}>(v, n, s), n)"  # noqa: E731
+            whole = f"one process, {od.replace('_', ' ')}: 1st {show(*steps[0][:3])} store={stores[0]}, 2nd {show(*steps[1][:3])} store={stores[1]}"
+            paths, dead = {}, set()
+
+            def save(k, m, role, store):
+                p = S.target(wd, store, f"s{k}")
+                try:
+                    with S.quiet():
+                        S.twin_session_graph(m, role, seed, k).save(p, store=store)
+                    paths[k] = p
+                except Exception as e:
+                    dead.add(k)
+                    outcomes[f"step{k}"] = ["save_raises", type(e).__name__]
+                    fails.append((dict(tag, relation="load_save_equals_input", symptom="save_raises", exc=type(e).__name__), f"{whole}: save of graph {k} raised {type(e).__name__}: {str(e)[:200]}"))
+
+            def load(k, m, role, store):
+                nonlocal fails, refused, rts
+                if k in dead:
+                    return
+                rts += 1
+                try:
+                    with S.quiet():
+                        st, y = "ok", S.q_load(paths[k])
+                except Exception as e:
+                    st, y = "load_raises", e
+                f, outcomes[f"step{k}"], r = _twin_judge(S.twin_session_graph(m, role, seed, k), st, y, f"{whole}: graph {k}", tag, S.twin_is_inner(m))
+                fails += f
+                refused += r
+
+            if od == "save_load_save_load":
+                seq = [("s", 0), ("l", 0), ("s", 1), ("l", 1)]
+            elif od == "save_save_load_load":
+                seq = [("s", 0), ("s", 1), ("l", 0), ("l", 1)]
+            else:
+                seq = [("s", 0), ("s", 1), ("l", 1), ("l", 0)]
+            for op, i in seq:
+                (save if op == "s" else load)(*steps[i])
+    folded, seen = [], {}
+    for cls, msg in fails:  # the same failure class twice (both stores / both steps) is one failing point
+        k = repr(sorted(cls.items(), key=repr))
+        if k in seen:
+            folded[seen[k]] = (cls, folded[seen[k]][1] + " || " + msg[:400])
+        else:
+            seen[k] = len(folded)
+            folded.append((cls, msg))
+    return folded, outcomes, rts, refused
+
+
+def eval_twin(item, seed=0, scratch="/tmp"):
+    t = Tally()
+    fails, outcomes, rts, refused = run_twin(item, seed, scratch)
+    for k in sorted(outcomes):
+        t.case(key=["twin", item, k], nontrivial=True, outcome=outcomes[k])
+    t.extra["twin_" + item["shape"] + "s"] += 1
+    t.extra["twin_loads"] += rts
+    t.extra["twin_loads_refused_because_of_a_class_nested_in_a_class"] += refused
+    t.extra["twin_loads_judged_for_class_identity"] += sum(1 for o in outcomes.values() if o and isinstance(o[0], list))
+    for cls, msg in fails:
+        t.fail(cls, dict(item, kind="twin", seed=seed), msg)
+    if item["first"] == "a.Params" and item["second"] == "b.Params":
+        t.sample({"family": "class_twins", "item": {k: v for k, v in item.items() if k != "fixed_point"}, "classes_loaded": {k: (o[0] if o and isinstance(o[0], list) else o) for k, o in outcomes.items()},
+                  "observed": "every node of the very same class, values equal" if not fails else f"{len(fails)} failure(s)"}, cap=2)
+    return t
+
+
 # ----------------------------------------------------------------------------- driver
 def run(ctx):
     ctx.assume(
@@ -1077,6 +1238,8 @@ def run(ctx):
     merged_r = ctx.pmap(eval_reentrant, ritems, chunk=1, label="re-entrant calls", seed=ctx.seed, scratch=ctx.scratch)
     maitems = mem_items(ctx.quick)
     merged_ma = ctx.pmap(eval_memalias, maitems, label="memory aliasing", seed=ctx.seed, scratch=ctx.scratch)
+    twitems = twin_items(ctx.quick)
+    merged_tw = ctx.pmap(eval_twin, twitems, label="same-named classes", seed=ctx.seed, scratch=ctx.scratch)
     hdepth = 3 if ctx.quick else 4
     hitems = enumerate_histories(hdepth, ctx.quick)
     merged_h = ctx.pmap(eval_history, hitems, label="histories", seed=ctx.seed, scratch=ctx.scratch)
@@ -1101,6 +1264,14 @@ def run(ctx):
                          "relations": ["load_save_equals_input", "zip_equals_dir"] + ([] if ctx.quick else ["fixed_point"]), "graphs": int(merged_ma.extra["memalias_graphs"]),
                          "graphs_whose_two_values_share_memory": int(merged_ma.extra["memalias_graphs_whose_two_values_share_memory"]),
                          "loaded_graphs_whose_two_values_still_share_memory": int(merged_ma.extra["memalias_loaded_graphs_whose_two_values_still_share_memory"])},
+        class_twins={"members": {m: S.twin_fullname(c) for m, c in S.TWIN_CLASSES.items()}, "ordered_pairs_with_diagonal": len(S.TWIN_CLASSES) ** 2,
+                     "placements_in_one_graph": [p for p in S.TWIN_PLACEMENTS if not (ctx.quick and p == "tuple")], "sessions_of_two_round_trips": S.TWIN_SESSIONS,
+                     "orders_of_saves_and_loads": [o for o in S.TWIN_ORDERS if not (ctx.quick and o == "save_save_load_load")],
+                     "stores": "graphs: both; sessions: " + ("zip+zip / dir+dir alternating over the product" if ctx.quick else "every ordered pair of stores"),
+                     "relations": ["class_identity (type(loaded) is type(original) at every AutoSerialize node)", "load_save_equals_input", "zip_equals_dir"] + ([] if ctx.quick else ["fixed_point"]),
+                     "graphs": int(merged_tw.extra["twin_graphs"]), "sessions": int(merged_tw.extra["twin_sessions"]), "loads": int(merged_tw.extra["twin_loads"]),
+                     "loads_judged_for_class_identity": int(merged_tw.extra["twin_loads_judged_for_class_identity"]),
+                     "loads_refused_because_of_a_class_nested_in_a_class": int(merged_tw.extra["twin_loads_refused_because_of_a_class_nested_in_a_class"])},
         cycles={"graphs": [n for n, _ in cyc], "cases": len(cyc_items), "refused_loudly": int(merged_c.extra["cycles_refused_loudly"]), "saved_and_loaded": int(merged_c.extra["cycles_saved_and_loaded"])},
         global_modes={"modes": S.GLOBAL_MODES, "save_mode_x_load_mode": [list(x) for x in mode_phases(ctx.quick)], "graphs": {k: S.show(v)[:200] for k, v in MODE_GRAPHS.items()},
                       "points": int(merged_m.extra["mode_points"]), "points_where_a_warning_became_an_error": int(merged_m.extra["mode_points_where_a_warning_became_an_error"])},
@@ -1139,6 +1310,8 @@ def run(ctx):
         raise Broken("no unsaveable leaf made save raise: the failed-save histories are vacuous")
     if int(merged_ma.extra["memalias_graphs"]) != len(maitems) or int(merged_ma.extra["memalias_graphs_whose_two_values_share_memory"]) != len(maitems) or len(maitems) < 300:
         raise Broken(f"memory-aliasing enumeration degenerate: {dict(merged_ma.extra)} of {len(maitems)} graphs (every pair must share memory in the input)")
+    if int(merged_tw.extra["twin_graphs"]) + int(merged_tw.extra["twin_sessions"]) != len(twitems) or int(merged_tw.extra["twin_loads_judged_for_class_identity"]) < len(twitems):
+        raise Broken(f"same-named-classes enumeration degenerate: {dict(merged_tw.extra)} of {len(twitems)} items")
     if int(merged_c.extra["cycles"]) != len(cyc_items) or int(merged_m.extra["mode_points"]) != len(mode_items) * len(STORES):
         raise Broken(f"cycle / global-mode enumeration incomplete: {merged_c.extra['cycles']} of {len(cyc_items)}, {merged_m.extra['mode_points']} of {len(mode_items) * len(STORES)}")
     if not need <= covered:
@@ -1178,6 +1351,17 @@ def replay(ctx, case):
         for store in STORES:
             print(f"  store={store}: loaded = {str(outcome.get(store))[:400]}")
         print(f"  expected: each of the two memory-sharing values loads back equal to itself in both stores; observed: {len(fails)} failure(s) in {rts} round trip(s)")
+        return
+    if case["kind"] == "twin":
+        fails, outcomes, rts, refused = run_twin(case, seed, ctx.scratch)
+        for cls, msg in fails:
+            ctx.fail(cls, case, msg)
+        print(f"  same-named classes: {({k: v for k, v in case.items() if k not in ('kind', 'seed')})}  (seed {seed})")
+        print(f"  members: {({m: S.twin_fullname(S.TWIN_CLASSES[m]) for m in (case['first'], case['second'])})}")
+        for k in sorted(outcomes):
+            o = outcomes[k]
+            print(f"  {k}: classes of the loaded nodes = {o[0] if o and isinstance(o[0], list) else o}")
+        print(f"  expected: every loaded node is an instance of the very same class (module included) with equal values; observed: {len(fails)} failure(s) in {rts} load(s), {refused} refused because of a class nested in a class")
         return
     if case["kind"] == "cycle":
         fails, outcome = run_cycle(case, seed, ctx.scratch)
